@@ -528,17 +528,13 @@ func c02(p *core.Program, r *core.Report) {
 	}
 
 	// ---- rule 4: accessors / iterators
-	only := func(names ...string) func(*types.Func) bool {
-		return func(o *types.Func) bool {
-			for _, n := range names {
-				if core.ObjName(o) == n {
-					return true
-				}
-			}
-			return false
-		}
+	// part accessors of MultiPolygon: every function of package geom whose receiver is *MultiPolygon (helpers extracted
+	// from Polygon(i) stay covered as long as they are methods), plus the level-3 kernels of flat.go via C09.
+	onlyMP := func(o *types.Func) bool {
+		sig, _ := o.Type().(*types.Signature)
+		return sig != nil && sig.Recv() != nil && o.Pkg().Path() == mod && strings.Contains(sig.Recv().Type().String(), "MultiPolygon")
 	}
-	lastElemRule(p, r, "last-elem-guarded", 2, only("(*geom.MultiPolygon).Polygon", "(*geom.MultiPolygon).Push"))
+	lastElemRule(p, r, "last-elem-guarded", 2, onlyMP)
 
 	// ---- rule 5: callers of Push propagate its error
 	const r5 = "push-errors-propagated"
